@@ -244,10 +244,63 @@ class C07(Prop):
         for _ in range(n):
             for cassette in ('memory', 'file', 's3'):
                 cases.append(self.gen_case(rng, cassette))
+        # two threads (two recorders of one service) saving different recordings through ONE cassette object, every line of the
+        # cassette module a scheduling point (not modelled: each saved id must fetch as what was saved under it)
+        for _ in range(60 if tier == 'quick' else 800):
+            cases.append({'kind': 'threadsave', 'cassette': rng.choice(['file', 'file', 'memory']), 'rand': rng.randrange(10 ** 9),
+                          'recs': [{'cat': rng.choice(['Op', 'OpB', 'Op.v2']), 'n': rng.randint(1, 4), 'tag': t} for t in ('A', 'B', 'C')[:rng.choice([2, 2, 3])]]})
         return cases
+
+    def run_threadsave(self, case):
+        import random as _random
+        from harness import sched as S
+        tmp = tempfile.mkdtemp(prefix='verif-c07t-')
+        try:
+            if case['cassette'] == 'file':
+                import playback.tape_cassettes.file_based.file_based_tape_cassette as mod
+                cassette = mod.FileBasedTapeCassette(os.path.join(tmp, 'cassette'))
+            else:
+                import playback.tape_cassettes.in_memory.in_memory_tape_cassette as mod
+                cassette = mod.InMemoryTapeCassette()
+            target = mod.__file__[:-1] if mod.__file__.endswith('.pyc') else mod.__file__
+            sch = S.Scheduler([target], chooser=S.RandomChooser(_random.Random(case['rand'])), max_steps=60000, watchdog_s=30.0)
+            ids, errors = {}, []
+
+            def saver(rec):
+                def body():
+                    try:
+                        r = cassette.create_new_recording(rec['cat'])
+                        ids[rec['tag']] = r.id
+                        for i in range(rec['n']):
+                            r.set_data('k%d' % i, [rec['tag'], i])
+                        r.add_metadata({'owner': rec['tag']})
+                        cassette.save_recording(r)
+                    except S.SchedAbort:
+                        raise
+                    except BaseException as ex:
+                        errors.append([rec['tag'], type(ex).__name__])
+                return body
+            for rec in case['recs']:
+                sch.spawn(rec['tag'], saver(rec))
+            outcome = sch.run()
+            got = {}
+            for rec in case['recs']:
+                try:
+                    f = cassette.get_recording(ids[rec['tag']])
+                    got[rec['tag']] = {'id_ok': f.id == ids[rec['tag']], 'keys': sorted(f.get_all_keys()),
+                                       'owner': f.get_metadata().get('owner'),
+                                       'data': [f.get_data(k) for k in sorted(f.get_all_keys())]}
+                except Exception as ex:
+                    got[rec['tag']] = {'err': type(ex).__name__}
+            leftovers = sorted(os.listdir(cassette.directory)) if case['cassette'] == 'file' else []
+            return {'outcome': outcome, 'errors': errors, 'got': got, 'files': len(leftovers), 'choices': list(sch.choices)[:200]}
+        finally:
+            shutil.rmtree(tmp, ignore_errors=True)
 
     # ------------------------------------------------------------------------------------------------------
     def run_impl(self, case):
+        if case.get('kind') == 'threadsave':
+            return self.run_threadsave(case)
         import uuid
         import datetime as real_datetime
         from harness import fake_s3
@@ -431,6 +484,8 @@ class C07(Prop):
         return out
 
     def model_requests(self, case):
+        if case.get('kind') == 'threadsave':
+            return []
         ops = []
         ids = []
         for rec in all_recordings(case):
@@ -451,6 +506,8 @@ class C07(Prop):
         return [{'m': 'c07.run', 'kind': case['cassette'], 'prefix': case['prefix'], 'ops': ops}]
 
     def model_transcript(self, case, answers):
+        if case.get('kind') == 'threadsave':
+            return None
         a = answers[0]
         n = len(all_recordings(case))
         u = len(case['unknown'])
@@ -479,6 +536,8 @@ class C07(Prop):
         return any(r['shared'] for r in all_recordings(case))
 
     def impl_view(self, case, impl):
+        if case.get('kind') == 'threadsave':
+            return None
         out = {'fetched': impl['fetched'], 'again': impl['again'], 'unknown': impl['unknown'], 'names': impl['names']}
         if not self.shares(case):
             out['blobs'] = impl['blobs']
@@ -486,6 +545,21 @@ class C07(Prop):
 
     # ------------------------------------------------------------------------------------------------------
     def oracle(self, case, impl):
+        if case.get('kind') == 'threadsave':
+            fails = []
+            if impl['outcome'] != 'finished' or impl['errors']:
+                fails.append('threads saving through one %s cassette: run ended %s, errors %r (schedule %r)'
+                             % (case['cassette'], impl['outcome'], impl['errors'], impl['choices']))
+            for rec in case['recs']:
+                g = impl['got'].get(rec['tag'])
+                want = {'id_ok': True, 'keys': ['k%d' % i for i in range(rec['n'])], 'owner': rec['tag'],
+                        'data': [[rec['tag'], i] for i in range(rec['n'])]}
+                if g != want:
+                    fails.append('threads saving through one %s cassette: the recording saved by thread %s fetches as %r, it was saved as '
+                                 '%r (schedule %r)' % (case['cassette'], rec['tag'], g, want, impl['choices']))
+            if case['cassette'] == 'file' and impl['files'] != len(case['recs']):
+                fails.append('threads saving through one file cassette: %d files for %d recordings' % (impl['files'], len(case['recs'])))
+            return fails
         fails = []
         recs = all_recordings(case)
         last = {}       # an id saved more than once holds what was saved last
@@ -529,6 +603,8 @@ class C07(Prop):
         return fails
 
     def known_finding(self, case, failures):
+        if case.get('kind') == 'threadsave':
+            return None
         """K2 only: S3, and every failure concerns a recording that holds a data key literally named _metadata"""
         if failures and case['cassette'] == 's3' and all(f.startswith('[metakey]') for f in failures):
             return KNOWN_META
@@ -537,9 +613,13 @@ class C07(Prop):
         return None
 
     def nontrivial(self, case, impl):
+        if case.get('kind') == 'threadsave':
+            return True
         return bool(case['main']['data'] or case['main']['meta'])
 
     def features(self, case, impl):
+        if case.get('kind') == 'threadsave':
+            return ['threads-saving-through-one-cassette:' + case['cassette']]
         out = ['cassette:' + case['cassette'], 'before:%d' % len(case['before']), 'after:%d' % len(case['after']),
                'keys:%d' % len(case['main']['data']), 'unknown:%d' % len(case['unknown'])]
         ids = [recording_id(case, r) for r in all_recordings(case)]
@@ -563,10 +643,14 @@ class C07(Prop):
         return out
 
     def sample_repr(self, case):
+        if case.get('kind') == 'threadsave':
+            return case
         return {'cassette': case['cassette'], 'prefix': case['prefix'], 'before': len(case['before']), 'after': len(case['after']),
                 'main': case['main'], 'unknown': case['unknown']}
 
     def shrink(self, case):
+        if case.get('kind') == 'threadsave':
+            return
         for key in ('before', 'after'):
             for i in range(len(case[key])):
                 yield dict(case, **{key: case[key][:i] + case[key][i + 1:]})
@@ -580,6 +664,8 @@ class C07(Prop):
             yield dict(case, unknown=case['unknown'][:i] + case['unknown'][i + 1:])
 
     def targeted(self, case, rng):
+        if case.get('kind') == 'threadsave':
+            return []
         return [self.gen_case(rng, case['cassette']) for _ in range(150)]
 
 
